@@ -537,6 +537,11 @@ impl TextOwn {
             ret.aligned(), // [C15 C02 C01]
             ret.words@.len() == self.words@.len(), ret.classes@ == self.classes@,
             ret.words@.len() == 1 ==> ret.words@[0].slice.0 == 0 && ret.words@[0].slice.1 == ret.chars@.len() && ret.words@[0].offset == 0 && ret.words@[0].fin == self.words@[0].fin,
+            // C02 / C11: WHAT the two arrays are: the source is the composed input (NUL padding aside), the normalised text is the
+            // reduction of the composed input
+            self.words@.len() == 1 && self.chars@ == self.source@ ==> ret.source@.filter(not_nul()) == norm_seq(&old(lang).compose_map, self.source@).filter(not_nul()), // [C02 C11]
+            self.words@.len() == 1 && self.chars@ == self.source@ ==> ret.chars@ == norm_seq(&old(lang).reduce_map, norm_seq(&old(lang).compose_map, self.source@)), // [C02 C11]
+            self.words@.len() == 0 ==> ret.source@ == self.source@ && ret.chars@ == self.chars@,
     {
         let mut __self = self;
         if __self.words.len() == 0 {
@@ -812,6 +817,7 @@ pub fn tokenize_query(source: &str, lang: &mut Lang) -> (ret: TextOwn)
     // word, alphanumeric edges, every alphanumeric character in a word; a query word is unfinished exactly when it ends the text
     ensures ret.wf(), // [C15 C01 C03]
         ws_fin_query(ret.words@, ret.chars@.len() as int), // [C15 C03]
+        ret.source@.filter(not_nul()) == norm_seq(&old(lang).compose_map, source@).filter(not_nul()), // [C02]
 {
     TextOwn::from_str(source).normalize(lang).fin(false).split(&[CharClass::Whitespace, CharClass::Control, CharClass::Punctuation], lang).strip(&[CharClass::NotAlphaNum], lang).lower().set_pos(lang).set_char_classes(lang).set_stem(lang)
 }
@@ -820,6 +826,9 @@ pub fn tokenize_record(source: &str, lang: &mut Lang) -> (ret: TextOwn)
     requires old(lang).wf(),
     ensures ret.wf(), // [C15 C01 C03]
         ws_fin_record(ret.words@), // [C15]
+        // C02: the stored source text is the title with the language's compositions applied (NUL padding aside): nothing else is
+        // dropped, duplicated, reordered or altered
+        ret.source@.filter(not_nul()) == norm_seq(&old(lang).compose_map, source@).filter(not_nul()), // [C02]
 {
     TextOwn::from_str(source).normalize(lang).split(&[CharClass::Whitespace, CharClass::Control, CharClass::Punctuation], lang).strip(&[CharClass::NotAlphaNum], lang).lower().set_pos(lang).set_char_classes(lang).set_stem(lang)
 }
